@@ -233,6 +233,10 @@ def run(prop, tier, work):
     if prop == "C14":
         from . import kworder
         kwinfo = kworder.run(v, work, stats, tier, checked)
+    recvinfo = None
+    if prop in ("C07", "C08"):
+        from . import receivers
+        recvinfo = receivers.run(v, work, stats, prop, checked)
     sweepinfo = None
     if prop in ("C07", "C08"):
         sweepinfo = config_sweep(work, stats, v, prop, tier)
@@ -247,7 +251,7 @@ def run(prop, tier, work):
     cov = {"states": stats["states"], "transitions": stats["transitions"],
            "traces_validated_against_impl": bound, "real_runs": stats["runs"], "call_rows": stats["rows"],
            "judged": dict(checked), "model_drift_cases": drift, "selftests": selftests, "notes": v.notes,
-           "universes": universes, "exhaustive": True, "keyword_order_universe": kwinfo, "corpus_bind_events": corpus, "shipped_config_sweep": sweepinfo,
+           "universes": universes, "exhaustive": True, "keyword_order_universe": kwinfo, "receiver_universe": recvinfo, "corpus_bind_events": corpus, "shipped_config_sweep": sweepinfo,
            "rule": "every (declaration, call) of the bounded universe enumerated by TLC; one source row per case in a "
                    "generated configuration; the bind event of each row must show the intended declaration and arguments"}
     return v.finish("model_checking", cov, assumptions=[
